@@ -9,6 +9,10 @@ from krrood.entity_query_language.symbol_graph import SymbolGraph
 from harness.models.sgmodel import FPerson
 
 
+FALSY = [False]
+FPerson.__bool__ = lambda self: not FALSY[0]      # switchable truth value of every instance (falsy Symbols are legal values)
+
+
 def arg(objs, kind):
     """The same elements as a list, a tuple or a one-shot iterator (any iterable is a legal argument of extend/update/+=)."""
     if kind == "tuple":
@@ -89,6 +93,7 @@ def handle(case):
     SymbolGraph().clear()
     SymbolGraph()
     inst = {n: FPerson(name=n) for n in "abcd"}
+    FALSY[0] = bool(case.get("falsy"))
     steps = []
     prev = set()
     reused = 0
@@ -110,6 +115,7 @@ def handle(case):
         out.update(observe(inst))
         steps.append(out)
     inst.clear()
+    FALSY[0] = False
     return {"steps": steps, "addr_reuse": reused}
 
 
